@@ -1066,12 +1066,12 @@ def write_changed_genotypes_header(file: TextIO) -> None:
 
 
 def write_changed_genotypes(file: TextIO, changed_genotypes) -> None:
-    """Append the changed genotypes of one chromosome to an open file"""
+    """Append the changed genotypes of one chromosome to an open file (positions are 1-based)"""
     for changed_genotype in changed_genotypes:
         print(
             changed_genotype.sample,
             changed_genotype.chromosome,
-            changed_genotype.variant.position,
+            changed_genotype.variant.position + 1,
             changed_genotype.variant.reference_allele,
             changed_genotype.variant.alternative_allele,
             repr(changed_genotype.old_gt),
